@@ -280,4 +280,18 @@ REG = {
     note="Spectrum within 1e-10 ||M||, residuals within 1e-9 ||M||: these reflect the library's own iteration thresholds rather than rounding. The Jacobi reference of the statement is "
          "replaced by planted spectra (the truth is an input). Determinant = product of eigenvalues is covered through the planted spectrum only.",
     technique="exact integer TLA+ model of symmetric matrices with planted eigen-structure (TLC exhaustive over block patterns and permutations), replay through Eigenvalues/Eigensystem in child processes with time limits, trace validation of residuals and termination"),
+ "C07": dict(
+    engine="spec/Distributions.tla, MC_Dist.tla, Gamma.tla (Pascal and Horner machines), Big.tla, Trace_Dist.tla; harness/c07.cpp",
+    design_ref="DESIGN.md §4.7",
+    text="The discrete families are decided against exact values: binomial coefficients from the Pascal machine (rows 0..170) give C(n,x) p^x (1-p)^(n-x) for dyadic p = k/8, and "
+         "Distributions.tla evaluates the Poisson series sum_{j<=k} mu^j/j! and mu^k/k! at rational means m/8 as a Horner state machine on arbitrary-precision integers (means 1/8..1000, "
+         "counts 0..500 on both sides of the switch of the incomplete gamma function). PMF/CDF_Binomial (every n<=170 exported, nine p, all x: masses, CDF = running sum, sum one, zero "
+         "outside the support), PMF/CDF_Poisson and the Poisson likelihoods are replayed against them. Recorded relations: CDF_Poisson against running sums of PMF_Poisson over means "
+         "1e-3..1e3, Inv_CDF_Poisson round trips, binned likelihood = product and log = logarithm, Quantile_Gauss bracketing, and seven continuous families (uniform, normal, exponential, "
+         "Maxwell-Boltzmann, chi-square with real and integer degrees of freedom 0.5..400, chi-bar mixtures) on random ascending grids including support boundaries and far tails: density "
+         ">= 0, CDF within [0,1], non-decreasing, 0 and 1 in the tails, increments equal to a quadrature of the library's own density; KDE non-negative and normalised. Trace_Dist checks "
+         "every residual in the tolerance class the family and parameter call for.",
+    note="Continuous CDFs are checked for coherence with their own densities (as stated), not against an independent reference. Chi-square above 200 degrees of freedom inherits the 1e-3 "
+         "accuracy class of the a>100 incomplete gamma function. KDE normalisation within 1e-5. Poisson mean 0 is outside the quantifier.",
+    technique="arbitrary-precision TLA+ series for the discrete families (Horner/Pascal state machines, TLC) replayed through PMF/CDF/likelihood functions + trace validation of recorded coherence relations of the continuous families"),
 }
